@@ -340,3 +340,72 @@ func VerifC06Failover() {
 	}
 	verifReach("c06.failover.done")
 }
+
+
+// VerifC06FullSyncRetry: the source fails over while the tool runs (no restart in between): the output still
+// works under the previous id A with the position (A, T), T at or beyond the switch offset. The first syncMeta
+// is refused partial resynchronisation and starts a snapshot of the new history B at offset X (real SetRunId ->
+// UpdateCheckpoint on the target). The snapshot replay does not complete (target error, stop); meanwhile the
+// cache holds B's snapshot at X and B's log up to r. The tool reconnects: the second syncMeta must take a
+// snapshot again or replay the complete cached snapshot from its start - it must not start reading B's log at
+// an offset the target never reached in B's history.
+func VerifC06FullSyncRetry() {
+	idB, idA := "aa-current-id", "bb-previous-id"
+	src := &verifSource{replid: idB, replid2: idA}
+	src.secondOff = verifI64("secondOff")
+	src.masterOff = 5000
+	src.rdbSize = 3
+	src.backlogOff = verifI64("backlogOff")
+	src.histLen = verifI64("histLen")
+	small := func(v int64) bool { return verifAnd(v >= 1, v < 1<<40) }
+	verifAssume(small(src.secondOff))
+	verifAssume(verifAnd(small(src.backlogOff), verifAnd(src.histLen >= 0, src.histLen < 1<<40)))
+	verifAssume(src.backlogOff+src.histLen == src.masterOff+1)
+	verifAssume(src.secondOff-1 <= src.masterOff)
+	T := verifI64("outOff")
+	verifAssume(small(T))
+	verifAssume(T > src.secondOff-1) // the tool had got further than the promoted replica
+
+	fake := verifNewFake()
+	verifAssert(checkpoint.SetCheckpoint(fake, &checkpoint.CheckpointInfo{Key: "cp", RunId: idA, Version: "v", Offset: T}) == nil, "C06.retry.setup")
+	fake.request("hset", []interface{}{config.CheckpointKeyHashKey, idA, "cp"})
+	ro := verifNewOutput(false, 1, fake)
+	ro.cfg.RunId = idA
+	ro.newRedisConn = func(context.Context) (client.Redis, error) {
+		fake.curDb = 0
+		return fake, nil
+	}
+	cache := &verifCache{rdbLeft: -1}
+	ri := &RedisInput{inputAddr: "src", channel: cache, output: ro, logger: log.WithLogger("[verif] ")}
+	isFull, _, _, _, err := ri.syncMeta(context.Background(), redis.VerifNewStandalone(src))
+	verifAssert(err == nil && isFull, "C06.retry.first-connection-not-a-snapshot")
+	if err != nil || !isFull {
+		return
+	}
+	// the data phase caches B's snapshot and some of its log; the replay to the target stops before the
+	// snapshot's own position is recorded (C04: nothing names the snapshot offset yet)
+	X := src.masterOff
+	r := verifI64("cacheRight")
+	verifAssume(verifAnd(r >= X, r < 1<<40))
+	cache2 := &verifCache{runId: idB, rdbLeft: X, rdbSize: src.rdbSize, left: X, right: r}
+	// the source has moved on
+	src2 := &verifSource{replid: idB, replid2: idA, secondOff: src.secondOff, masterOff: 1 << 33, rdbSize: 3}
+	src2.backlogOff = verifI64("backlogOff2")
+	src2.histLen = verifI64("histLen2")
+	verifAssume(verifAnd(small(src2.backlogOff), verifAnd(src2.histLen >= 0, src2.histLen < 1<<40)))
+	verifAssume(src2.backlogOff+src2.histLen == src2.masterOff+1)
+	verifAssume(r <= src2.masterOff)
+	ri2 := &RedisInput{inputAddr: "src", channel: cache2, output: ro, logger: log.WithLogger("[verif] ")}
+	isFull2, _, _, outSp2, err2 := ri2.syncMeta(context.Background(), redis.VerifNewStandalone(src2))
+	verifAssert(err2 == nil, "C06.retry.syncmeta-error")
+	if err2 != nil {
+		return
+	}
+	if !isFull2 {
+		// continuing is only legitimate as a replay of the complete cached snapshot from its start
+		fromSnapshot := verifAnd(!cache2.cleared, outSp2.Offset <= cache2.rdbLeft)
+		verifAssert(fromSnapshot, "C06.retry.continues-after-incomplete-snapshot")
+	}
+	verifCover(isFull2, "c06.retry.snapshot-again")
+	verifReach("c06.retry.done")
+}
